@@ -34,183 +34,37 @@ import (
 
 	"github.com/btcsuite/btcd/chainhash/v2"
 	"github.com/btcsuite/btcd/wire/v2"
-	"github.com/lightningnetwork/lnd/chainntnfs"
 	"github.com/lightningnetwork/lnd/channeldb"
 	"github.com/lightningnetwork/lnd/fn/v2"
 	"github.com/lightningnetwork/lnd/kvdb"
 	"github.com/lightningnetwork/lnd/lnwallet"
 )
 
-// c13ConfSub is one confirmation subscription of the nursery.
-type c13ConfSub struct {
-	txid      chainhash.Hash
-	ev        *chainntnfs.ConfirmationEvent
-	inc       *ccInc
-	seq       int
-	delivered bool
-	cancelled bool
-}
-
-// c13NurseryNotifier is the nursery's chain notifier.
-type c13NurseryNotifier struct {
-	*ccNotifier
-	env *c13Env
-}
-
-var _ chainntnfs.ChainNotifier = (*c13NurseryNotifier)(nil)
-
-func (n *c13NurseryNotifier) RegisterConfirmationsNtfn(txid *chainhash.Hash,
-	_ []byte, numConfs, _ uint32, _ ...chainntnfs.NotifierOption) (
-	*chainntnfs.ConfirmationEvent, error) {
-
-	w := n.env.w
-	sub := &c13ConfSub{txid: *txid, inc: n.inc}
-	sub.ev = chainntnfs.NewConfirmationEvent(numConfs, func() {
-		w.mu.Lock()
-		sub.cancelled = true
-		w.mu.Unlock()
-	})
-	w.mu.Lock()
-	defer w.mu.Unlock()
-	if n.inc.dead {
-		return nil, errCcDead
-	}
-	w.seq++
-	sub.seq = w.seq
-	n.env.confSubs = append(n.env.confSubs, sub)
-
-	return sub.ev, nil
-}
-
-func (n *c13NurseryNotifier) RegisterBlockEpochNtfn(
-	best *chainntnfs.BlockEpoch) (*chainntnfs.BlockEpochEvent, error) {
-
-	w := n.env.w
-	ch := make(chan *chainntnfs.BlockEpoch, 512)
-	sub := &ccEpochSub{ch: ch, inc: n.inc, ident: "nursery"}
-	w.mu.Lock()
-	w.seq++
-	sub.seq = w.seq
-	sub.next = w.height
-	if best != nil {
-		// The client has seen its best block already.
-		sub.next = best.Height + 1
-	}
-	w.epochSubs = append(w.epochSubs, sub)
-	w.mu.Unlock()
-
-	return &chainntnfs.BlockEpochEvent{
-		Epochs: ch,
-		Cancel: func() {
-			w.mu.Lock()
-			sub.cancelled = true
-			w.mu.Unlock()
-		},
-	}, nil
-}
-
-// c13Store routes every durable write of the nursery store through the
-// incarnation (effect = crash point).
-type c13Store struct {
-	NurseryStorer
-	inc *ccInc
-}
-
-func (s *c13Store) Incubate(k []kidOutput, b []babyOutput) error {
-	return s.inc.effect("IncubateOutputs", func() error {
-		return s.NurseryStorer.Incubate(k, b)
-	})
-}
-
-func (s *c13Store) CribToKinder(b *babyOutput) error {
-	return s.inc.effect("NurseryCribToKinder", func() error {
-		return s.NurseryStorer.CribToKinder(b)
-	})
-}
-
-func (s *c13Store) PreschoolToKinder(k *kidOutput, last uint32) error {
-	return s.inc.effect("NurseryPreschoolToKinder", func() error {
-		return s.NurseryStorer.PreschoolToKinder(k, last)
-	})
-}
-
-func (s *c13Store) GraduateKinder(h uint32, k *kidOutput) error {
-	return s.inc.effect("NurseryGraduateKinder", func() error {
-		return s.NurseryStorer.GraduateKinder(h, k)
-	})
-}
-
-func (s *c13Store) RemoveChannel(op *wire.OutPoint) error {
-	return s.inc.effect("NurseryRemoveChannel", func() error {
-		return s.NurseryStorer.RemoveChannel(op)
-	})
-}
-
-// newNursery builds the (un-started) nursery of one process life.
+// newNursery builds the (un-started) nursery of one process life (shared
+// rig: ccnursery_test.go).
 func (e *c13Env) newNursery(inc *ccInc, db kvdb.Backend) (*UtxoNursery,
 	error) {
 
 	w := e.w
-	store, err := NewNurseryStore(
-		&chainhash.Hash{}, &channeldb.DB{Backend: db},
+	publish := func(tx *wire.MsgTx) error {
+		w.mu.Lock()
+		defer w.mu.Unlock()
+		op := tx.TxIn[0].PreviousOutPoint
+		e.mempool[op] = tx.Copy()
+		e.nurseryPublished[op] = true
+
+		return nil
+	}
+	sweeper := &c13Sweeper{ccSweeper: &ccSweeper{inc: inc}, env: e}
+	n, store, err := ccNewNursery(
+		e.net, inc, db, ccChanPoint, publish, sweeper.SweepInput,
 	)
 	if err != nil {
 		return nil, err
 	}
-	summary := func() *channeldb.ChannelCloseSummary {
-		s := ccCloseSummary(w.closeType, w.closeHeight)
-		s.IsPending = w.fullyResolved == 0
-
-		return &s
-	}
-	cfg := &NurseryConfig{
-		ChainIO:   &ccChainIO{inc: inc},
-		ConfDepth: 1,
-		FetchClosedChannels: func(pendingOnly bool) (
-			[]*channeldb.ChannelCloseSummary, error) {
-
-			w.mu.Lock()
-			defer w.mu.Unlock()
-			if !w.closed || (pendingOnly && w.fullyResolved > 0) {
-				return nil, nil
-			}
-
-			return []*channeldb.ChannelCloseSummary{summary()}, nil
-		},
-		FetchClosedChannel: func(op *wire.OutPoint) (
-			*channeldb.ChannelCloseSummary, error) {
-
-			w.mu.Lock()
-			defer w.mu.Unlock()
-			if !w.closed || *op != ccChanPoint {
-				return nil, channeldb.ErrClosedChannelNotFound
-			}
-
-			return summary(), nil
-		},
-		Notifier: &c13NurseryNotifier{
-			ccNotifier: &ccNotifier{inc: inc}, env: e,
-		},
-		PublishTransaction: func(tx *wire.MsgTx, _ string) error {
-			return inc.effect("NurseryPublishTx", func() error {
-				w.mu.Lock()
-				defer w.mu.Unlock()
-				op := tx.TxIn[0].PreviousOutPoint
-				e.mempool[op] = tx.Copy()
-				e.nurseryPublished[op] = true
-
-				return nil
-			})
-		},
-		Store: &c13Store{NurseryStorer: store, inc: inc},
-		SweepInput: (&c13Sweeper{
-			ccSweeper: &ccSweeper{inc: inc}, env: e,
-		}).SweepInput,
-		Budget: DefaultBudgetConfig(),
-	}
 	e.rawStore = store
 
-	return NewUtxoNursery(cfg), nil
+	return n, nil
 }
 
 // incubateReal is cfg.IncubateOutputs in real-nursery mode.
@@ -240,48 +94,6 @@ func (e *c13Env) incubateReal(inc *ccInc, chanPoint wire.OutPoint,
 	})
 
 	return nil
-}
-
-// confCandidates lists the deliverable confirmation notifications. Called
-// with w.mu held.
-func (e *c13Env) confCandidates(inc *ccInc) (keys []string,
-	do map[string]func()) {
-
-	w := e.w
-	do = make(map[string]func())
-	for _, s := range e.confSubs {
-		s := s
-		if s.inc != inc || s.delivered || s.cancelled {
-			continue
-		}
-		var det *chainntnfs.SpendDetail
-		var ops []string
-		byOp := map[string]*chainntnfs.SpendDetail{}
-		for op, d := range w.spent {
-			if *d.SpenderTxHash == s.txid {
-				ops = append(ops, op.String())
-				byOp[op.String()] = d
-			}
-		}
-		if len(ops) == 0 {
-			continue
-		}
-		sort.Strings(ops)
-		det = byOp[ops[0]]
-		key := fmt.Sprintf("5conf:%v:%06d", s.txid, s.seq)
-		keys = append(keys, key)
-		do[key] = func() {
-			s.delivered = true
-			s.ev.Confirmed <- &chainntnfs.TxConfirmation{
-				BlockHash:   &chainhash.Hash{},
-				BlockHeight: uint32(det.SpendingHeight),
-				Tx:          det.SpendingTx,
-			}
-			e.nurseryConfs++
-		}
-	}
-
-	return keys, do
 }
 
 // nurseryLeft lists what the nursery store still tracks (read from the file
